@@ -509,12 +509,29 @@ func c20CloseRace(r *Run, idx int) {
 		}(w)
 	}
 	closeAfter := int64(1 + rng.Intn(400))
+	verdict := ""
+	// bounded by progress: if no Wait has returned for 300 ms the callers are asked where they are (a waiter stranded
+	// before Close is a violation in its own right, and waiting for Waits that will never return only burns the budget)
+	lastWaits, lastMove := int64(-1), time.Now()
 	for polls := 0; waits.Load() < closeAfter && polls < 200000; polls++ {
 		time.Sleep(20 * time.Microsecond)
+		if w := waits.Load(); w != lastWaits {
+			lastWaits, lastMove = w, time.Now()
+		} else if time.Since(lastMove) > 300*time.Millisecond {
+			if n, what := c20Stuck(func() int { return c.VerifStore().VerifQueueLen() }); n > 0 {
+				verdict = "before Close was called: " + what
+			}
+			break
+		}
 	}
 	c.Close()
 	close(stop)
-	verdict := ""
+	if verdict != "" {
+		r.Eval(1)
+		r.Violate("wait-never-returns/concurrent-set-and-wait-loops", fmt.Sprintf("close-race scenario %d (%d goroutines alternating Set and Wait): %s", idx, K, verdict),
+			map[string]any{"scenario": idx, "waiters": K})
+		return
+	}
 	for evals := 0; evals < 100 && finished.Load() < int64(K); evals++ {
 		time.Sleep(10 * time.Millisecond)
 		if finished.Load() == int64(K) {
